@@ -83,6 +83,30 @@ MUTANTS = [
  ("c19-extends-key", "C19", "C19.R3", "css/counters/counters.go", "\t\t\tpreviousTypes.Add(system)\n\n\t\t\textends, system = \"\", \"symbolic\"", "\t\t\tpreviousTypes.Add(counterName)\n\n\t\t\textends, system = \"\", \"symbolic\""),
  ("c19-numeric-one", "C19", "C19.R1", "css/counters/counters.go", "\tif len(symbols) < 2 {\n\t\treturn \"\", false\n\t}\n\tvar reversedParts []string", "\tif len(symbols) < 1 {\n\t\treturn \"\", false\n\t}\n\tvar reversedParts []string"),
  ("c08-clip-unreversed", "C08", "C08.R6", "css/validation/expanders.go", "\t\tresultsClips[left], resultsClips[right] = resultsClips[right], resultsClips[left]\n", ""),
+ # --- folding / truth-table / linear-form rules
+ ("c18-elevation", "C18", "C18.R4", "svg/elements_path.go", "const twoThird = 2. / 3", "const twoThird = 1. / 3"),
+ ("c18-prime-sign", "C18", "C18.R4", "svg/elements_path.go", "py = Fl(-aSinEta*sinTheta + bCosEta*cosTheta)", "py = Fl(-aSinEta*sinTheta - bCosEta*cosTheta)"),
+ ("c18-arc-flag", "C18", "C18.R5", "svg/elements_path.go", "points[4] == 0, points[3] == 0)", "points[4] != 0, points[3] == 0)"),
+ ("c18-arc-k", "C18", "C18.R5", "svg/elements_path.go", "hr = math.Sqrt(*rb**rb-midlenSq) / math.Sqrt(midlenSq)", "hr = math.Sqrt(*rb**rb-midlenSq) / math.Sqrt(*rb**rb)"),
+ ("c18-arc-radii", "C18", "C18.R5", "svg/elements_path.go", "\t\t\t*ra = *ra * nrb / *rb\n\t\t}\n\t\t*rb = nrb\n", "\t\t\t*rb = nrb\n\t\t\t*ra = *ra * nrb / *rb\n\t\t}\n\t\t*rb = nrb\n"),
+ ("c18-ellipse-ctrl", "C18", "C18.R6", "svg/elements.go", "dst.CubicTo(cx-ratioX, cy+ry, cx-rx, cy+ratioY, cx-rx, cy)", "dst.CubicTo(cx-ratioX, cy+ry, cx-rx, cy-ratioY, cx-rx, cy)"),
+ ("c18-rect-edge", "C18", "C18.R6", "svg/elements.go", "dst.LineTo(x+width, y+height-ry)", "dst.LineTo(x+width, y+height-rx)"),
+ ("c18-rect-wh", "C18", "C18.R6", "svg/elements.go", "dst.Rectangle(x, y, width, height)", "dst.Rectangle(x, y, height, width)"),
+ ("c06-rewind-semicolon", "C06", "C06.R6", "css/parser/parser.go", "tokens = NewIter(append(append(declarationTokens, semicolonToken...), tokens.tail()...))", "tokens = NewIter(append(declarationTokens, tokens.tail()...))"),
+ ("c12-orphans-leq", "C12", "C12.R6", "html/layout/blocks.go", "\t\tif index < orphans {", "\t\tif index <= orphans {"),
+ ("c12-widows-geq", "C12", "C12.R6", "html/layout/blocks.go", "if needed > overOrphans && !pageIsEmpty {", "if needed >= overOrphans && !pageIsEmpty {"),
+ ("c12-page-half", "C12", "C12.R5", "html/layout/pages.go", "box.marginA = (remaining - box.inner.V()) / 2", "box.marginA = (remaining - box.inner.V()) / 3"),
+ ("c11-lastchild-offset", "C11", "C11.R7", "html/layout/inline.go", "lastChild := index == len(box.Children)-1", "lastChild := index == L-1"),
+ ("c11-anywhere-midline", "C11", "C11.R8", "text/engine_pango.go", "\tcanBreak := wordBreak == WBBreakAll ||\n\t\t(isLineStart && (overflowWrap == OAnywhere || (overflowWrap == OBreakWord && !minimum)))", "\tcanBreak := wordBreak == WBBreakAll || overflowWrap == OAnywhere ||\n\t\t(isLineStart && overflowWrap == OBreakWord && !minimum)"),
+ ("c11-breakword-min", "C11", "C11.R8", "text/engine_gotext.go", "(isLineStart && (overflowWrap == OAnywhere || (overflowWrap == OBreakWord && !minimum)))", "(isLineStart && (overflowWrap == OAnywhere || overflowWrap == OBreakWord))"),
+ ("c14-repeat-zero", "C14", "C14.R7", "html/layout/backgrounds.go", "nRepeats := utils.MaxInt(1, int(math.Round(float64(positioningHeight/imageHeight))))", "nRepeats := int(math.Round(float64(positioningHeight / imageHeight)))"),
+ ("ok-orphans-respelled", "C12", "", "html/layout/blocks.go", "\t\tif index < orphans {", "\t\tif !(len(children) >= orphans+widows) {"),
+ ("ok-canbreak-switch", "C11", "", "text/engine_gotext.go", "\tcanBreak := wordBreak == WBBreakAll ||\n\t\t(isLineStart && (overflowWrap == OAnywhere || (overflowWrap == OBreakWord && !minimum)))\n\tif space < 0 && canBreak {", "\tcanBreak := wordBreak == WBBreakAll\n\tif !canBreak && isLineStart {\n\t\tswitch overflowWrap {\n\t\tcase OAnywhere:\n\t\t\tcanBreak = true\n\t\tcase OBreakWord:\n\t\t\tcanBreak = !minimum\n\t\t}\n\t}\n\tif canBreak && !(space >= 0) {"),
+ ("ok-repeat-clamp-if", "C14", "", "html/layout/backgrounds.go", "nRepeats := utils.MaxInt(1, int(math.Round(float64(positioningHeight/imageHeight))))", "nRepeats := int(math.Round(float64(positioningHeight / imageHeight)))\n\t\tif nRepeats < 1 {\n\t\t\tnRepeats = 1\n\t\t}"),
+ ("c18-arc-group", "C18", "C18.R7", "svg/elements_path.go", "c.currentX, c.currentY = c.addArc(points, Fl(cx), Fl(cy), c.currentX, c.currentY)", "c.currentX, c.currentY = c.addArc(c.points, Fl(cx), Fl(cy), c.currentX, c.currentY)"),
+ ("c02-relative-key", "C02", "C02.R1", "html/layout/tables.go", "indexRow := i + skip", "indexRow := i"),
+ ("c02-earlier-line", "C02", "C02.R3", "html/layout/blocks.go", "resumeAt = tree.ResumeStack{0: newChildren[len(newChildren)-1].(*bo.LineBox).ResumeAt}", "resumeAt = tree.ResumeStack{0: children[index].(*bo.LineBox).ResumeAt}"),
+ ("c02-dropped-resume", "C02", "C02.R2", "html/layout/flex.go", "\t\t\t\tchildResumeAt := tmp.resumeAt\n\t\t\t\tif newChild == nil {\n\t\t\t\t\tif resumeAt != nil {", "\t\t\t\tvar childResumeAt tree.ResumeStack\n\t\t\t\t_ = tmp\n\t\t\t\tif newChild == nil {\n\t\t\t\t\tif resumeAt != nil {"),
  # behaviour-preserving edits: must stay silent
  ("ok-rename-local", "C03", "", "html/tree/style.go", "oldWeight := style[decl.Name].weight\n\t\t\tif oldWeight.isNone() || oldWeight.Less(we) {", "previous := style[decl.Name].weight\n\t\t\tif previous.isNone() || previous.Less(we) {"),
  ("ok-early-continue", "C03", "", "html/tree/style.go", "\t\t\tif oldWeight.isNone() || oldWeight.Less(we) {\n\t\t\t\tstyle[decl.Name] = weigthedValue{weight: we, value: decl.Value, shortand: decl.Shortand}\n\t\t\t}\n\t\t}\n\t}\n\n\t// First, add", "\t\t\tif !(oldWeight.isNone() || oldWeight.Less(we)) {\n\t\t\t\tcontinue\n\t\t\t}\n\t\t\tstyle[decl.Name] = weigthedValue{weight: we, value: decl.Value, shortand: decl.Shortand}\n\t\t}\n\t}\n\n\t// First, add"),
